@@ -221,7 +221,29 @@ func (a *BigInt) M__imul__(other Object) (Object, error) {
 	return a.M__mul__(other)
 }
 
+// bigIntTrueDiv returns the float nearest to the exact quotient a / b
+func bigIntTrueDiv(a, b *big.Int) (Object, error) {
+	if b.Sign() == 0 {
+		return nil, divisionByZero
+	}
+	f, _ := new(big.Rat).SetFrac(a, b).Float64()
+	if math.IsInf(f, 0) {
+		return nil, ExceptionNewf(OverflowError, "integer division result too large for a float")
+	}
+	if f == 0 {
+		// a zero result takes the sign of the quotient
+		f = 0
+		if (a.Sign() < 0) != (b.Sign() < 0) {
+			f = math.Copysign(0, -1)
+		}
+	}
+	return Float(f), nil
+}
+
 func (a *BigInt) M__truediv__(other Object) (Object, error) {
+	if b, ok := ConvertToBigInt(other); ok {
+		return bigIntTrueDiv((*big.Int)(a), (*big.Int)(b))
+	}
 	b, err := MakeFloat(other)
 	if err != nil {
 		return nil, err
@@ -238,6 +260,9 @@ func (a *BigInt) M__truediv__(other Object) (Object, error) {
 }
 
 func (a *BigInt) M__rtruediv__(other Object) (Object, error) {
+	if b, ok := ConvertToBigInt(other); ok {
+		return bigIntTrueDiv((*big.Int)(b), (*big.Int)(a))
+	}
 	b, err := MakeFloat(other)
 	if err != nil {
 		return nil, err
